@@ -58,6 +58,11 @@ pub struct TrainSpec {
     pub pdct: String,
     #[serde(default = "freight")]
     pub train_type: TrainType,
+    /// the consist is constructed around its first unit alone and gets the full set of units afterwards
+    /// (`Consist::set_loco_vec`, the way the Python API re-configures a consist): whatever the constructor derived
+    /// from the units must follow
+    #[serde(default)]
+    pub late_units: bool,
 }
 fn freight() -> TrainType {
     TrainType::Freight
@@ -163,7 +168,13 @@ pub fn build_consist(t: &TrainSpec, save_interval: Option<usize>) -> Consist {
     } else {
         PowerDistributionControlType::RESGreedy(altrios_core::consist::RESGreedy)
     };
-    Consist::new(locos, save_interval, pdct)
+    if t.late_units && locos.len() >= 2 {
+        let mut c = Consist::new(vec![locos[0].clone()], save_interval, pdct);
+        c.set_loco_vec(locos);
+        c
+    } else {
+        Consist::new(locos, save_interval, pdct)
+    }
 }
 
 pub fn build_train_config(t: &TrainSpec) -> anyhow::Result<TrainConfig> {
@@ -246,6 +257,15 @@ pub fn gen_train_types(rng: &mut Rng, max_cars: u32, max_types: usize) -> TrainS
     if cars.iter().all(|c| c.n == 0) {
         cars[0].n = 5;
     }
+    // a car type that is listed but has no cars in this train (slower than every type that has): must not
+    // contribute to anything
+    if rng.chance(0.12) {
+        let mut c = gen_car(rng, true);
+        c.n = 0;
+        c.speed_max = *rng.pick(&[9.0, 12.0, 15.0]);
+        let at = rng.usize(0, cars.len());
+        cars.insert(at, c);
+    }
     let n_units = rng.usize(2, 6);
     let consist: Vec<ConUnit> = (0..n_units)
         .map(|_| match rng.below(10) {
@@ -289,6 +309,7 @@ pub fn gen_train_types(rng: &mut Rng, max_cars: u32, max_types: usize) -> TrainS
         consist,
         pdct: if rng.chance(0.6) { "RESGreedy".into() } else { "Proportional".into() },
         train_type: TrainType::Freight,
+        late_units: rng.chance(0.1),
     }
 }
 
@@ -319,7 +340,7 @@ pub fn gen_net_for_trains_opt(rng: &mut Rng, focus: &str, downhill: bool) -> (Ve
         }
     }
     o.max_restr = match focus {
-        "C03" => rng.usize(0, 4),
+        "C03" | "C13" | "C02" => rng.usize(0, 4),
         _ => rng.usize(0, 2),
     };
     o.params = false;
@@ -338,7 +359,7 @@ pub fn gen_net_for_trains_opt(rng: &mut Rng, focus: &str, downhill: bool) -> (Ve
 pub fn generate(rng: &mut Rng, focus: &str, thorough: bool) -> Case {
     // heavy train behind few units on a long descent, with a friction brake that ramps up slowly: the friction
     // brake (not the dynamic brake) holds the speed, and what it can do depends on what it did a step ago
-    let downhill = focus != "C14" && focus != "C18" && rng.chance(if focus == "C03" { 0.1 } else { 0.05 });
+    let downhill = focus != "C14" && focus != "C18" && focus != "C13" && focus != "C02" && rng.chance(if focus == "C03" { 0.1 } else { 0.05 });
     let (links, ns) = gen_net_for_trains_opt(rng, focus, downhill);
     let choice = rng.next();
     let full = if downhill || rng.chance(0.75) { fwd_route(ns, choice) } else { rev_route(ns, choice) };
@@ -366,7 +387,7 @@ pub fn generate(rng: &mut Rng, focus: &str, thorough: bool) -> Case {
     }
     let set_speed_kind = match focus {
         "C14" => true,
-        "C03" => false,
+        "C03" | "C13" | "C02" => false,
         _ => !downhill && rng.chance(0.4),
     };
     // a speed-limited run needs room for the train plus its braking curve from the end of authority
@@ -418,6 +439,29 @@ pub fn generate(rng: &mut Rng, focus: &str, thorough: bool) -> Case {
                 }
             }
             cum += len.value;
+        }
+    }
+    // restriction sets gated by a train parameter, with thresholds at / one off the train's own value (every
+    // compare type): beyond the part of the route the train starts on, so that a set that does not apply (the
+    // link then only has the train's own maximum) or applies cannot end the run at set-up
+    if focus != "C18" && rng.chance(match focus { "C03" => 0.2, "C13" | "C02" => 0.35, _ => 0.1 }) {
+        let axles: u32 = train.cars.iter().map(|c| c.axle_count as u32 * c.n).sum();
+        let mut cum = 0.0;
+        for l in &route {
+            let link = &mut links[*l as usize];
+            let len = link.length.value;
+            if cum >= train_len + 1500.0 && rng.chance(0.5) {
+                let ct = *rng.pick(&[CompareType::TpEqualRp, CompareType::TpGreaterThanRp, CompareType::TpLessThanRp, CompareType::TpGreaterThanEqualRp, CompareType::TpGreaterThanEqualRp, CompareType::TpLessThanEqualRp, CompareType::TpLessThanEqualRp]);
+                let val = (axles as i64 + *rng.pick(&[0i64, 0, 0, -1, 1, -8, 8])).max(0) as f64;
+                let p = SpeedParam { limit_val: val, limit_type: LimitType::AxleCount, compare_type: ct };
+                if let Some(ss) = link.speed_set.as_mut() {
+                    ss.speed_params = vec![p];
+                }
+                for ss in link.speed_sets.values_mut() {
+                    ss.speed_params = vec![p];
+                }
+            }
+            cum += len;
         }
     }
     let set_speed = set_speed_kind;
@@ -1154,7 +1198,7 @@ fn check_limit_run(ctx: &mut Ctx, tr: &Traj, links: &[Link], route: &[usize], ca
     }
 }
 
-fn check_set_speed(ctx: &mut Ctx, tr: &Traj, v0: f64, trace: &[(f64, f64)], t0: f64, con0: &ConsistState) {
+fn check_set_speed(ctx: &mut Ctx, tr: &Traj, v0: f64, trace: &[(f64, f64)], t0: f64, _con0: &ConsistState, db_cap: f64) {
     let s = &tr.states;
     let mut time = t0;
     let mut e = (s[0].energy_whl_out.value, s[0].energy_whl_out_pos.value, s[0].energy_whl_out_neg.value);
@@ -1180,11 +1224,12 @@ fn check_set_speed(ctx: &mut Ctx, tr: &Traj, v0: f64, trace: &[(f64, f64)], t0: 
         }
         // clips from published consist state only
         let c = &tr.con[k];
-        let cprev = if k == 1 { con0 } else { &tr.con[k - 1] };
         // ramp allowance over THIS step (the trace's own dt), not over the previous one
         let pos_max = c.pwr_out_max.value.min((a.pwr_whl_out.value + c.pwr_rate_out_max.value * dt).max(0.0));
         let pos_max_stale_dt = c.pwr_out_max.value.min((a.pwr_whl_out.value + c.pwr_rate_out_max.value * a.dt.value).max(0.0));
-        let neg_max = cprev.pwr_dyn_brake_max.value.max(0.0);
+        // the consist's dynamic-braking capability: the sum of its units' drivetrain ratings (from the units
+        // themselves, not from a derived state field that may be stale)
+        let neg_max = db_cap;
         let want = (accel + pres).max(-neg_max).min(pos_max);
         if !close(b.pwr_whl_out.value, want, 1e-9, 1e-6, sc) {
             let stale = close(b.pwr_whl_out.value, (accel + pres).max(-neg_max).min(pos_max_stale_dt), 1e-9, 1e-6, sc);
@@ -1287,6 +1332,7 @@ pub fn execute(case: &Case, ctx: &mut Ctx) {
                 ctx.violate("C20", "mass_algebra", "train static mass = cars (or override) + consist", format!("mass_static {} vs {} (towed {} + consist {consist_mass})", sim.state.mass_static.value, r.mass_static, r.towed));
             }
             let con_init = sim.loco_con.state;
+            let db_cap: f64 = sim.loco_con.loco_vec.iter().map(|l| pt::edrv_rating(l)).sum();
             let mut tr = Traj { states: vec![sim.state], con: vec![sim.loco_con.state], loco_sums: vec![loco_sums(&sim.loco_con)], fric: vec![], fric_ramp_up: 0.0, auth_end: vec![0.0], delivered: vec![route.len()] };
             let path_len: f64 = route.iter().map(|l| links[*l].length.value).sum();
             ctx.layer = "train-stepping";
@@ -1399,7 +1445,7 @@ pub fn execute(case: &Case, ctx: &mut Ctx) {
             }
             if !*shipped_walk || case.save_interval == Some(1) {
                 ctx.layer = "train-stepping";
-                check_set_speed(ctx, &tr, *v0, trace, case.init_time, &con_init);
+                check_set_speed(ctx, &tr, *v0, trace, case.init_time, &con_init, db_cap);
                 check_kinematics(ctx, &tr, links, &route, r.length, Some(*v0));
                 check_resistance(ctx, &tr, links, &route, &r);
                 // (the set-speed simulation keeps its path private: read it the way a user would, from a saved copy)
@@ -1433,6 +1479,7 @@ pub fn execute(case: &Case, ctx: &mut Ctx) {
                 }
             }
             let mut rn = Runner::new(sim, case, dt);
+            rn.tspec = Some(crate::trk::TrainSpec { length: r.length, speed_max: r.speed_max, towed_mass_static: r.towed, mass_per_brake: 0.0, axle_count: case.train.cars.iter().map(|c| c.axle_count as u32 * c.n).sum(), curve_coeff: CURVE, train_type: case.train.train_type });
             let result = rn.run(ctx, case, links, &lroute);
             let arrived = rn.arrived;
             ctx.add("stat.steps", rn.k as u64);
@@ -1586,6 +1633,9 @@ struct Runner {
     final_walk: bool,
     /// the final rest state was handed to the shipped loop (no step-for-step comparison with a fresh shipped run)
     handed_over: bool,
+    /// the train as the track world's speed-profile reference sees it (from the car list, not from the
+    /// simulation's own TrainParams): the profile of the train's own path is judged after every extension
+    tspec: Option<crate::trk::TrainSpec>,
 }
 
 impl Runner {
@@ -1593,7 +1643,7 @@ impl Runner {
         sim.state.dt = dt * uc::S;
         let tr = Traj { states: vec![sim.state], con: vec![sim.loco_con.state], loco_sums: vec![loco_sums(&sim.loco_con)], fric: vec![sim.fric_brake.state.force.value], fric_ramp_up: sim.fric_brake.ramp_up_time.value, auth_end: vec![0.0], delivered: vec![0] };
         BRAKE_CTX.with(|c| c.set((tr.fric_ramp_up, false, 0.0)));
-        Runner { sim, tr, al: Align { i: 1, len: 0, interval: case.save_interval }, dt, k: 0, done: 0, ci: 0, ii: 0, arrived: false, terminated: false, budget: 60_000, rest_outside: 0, stuck: false, final_walk: false, handed_over: false }
+        Runner { sim, tr, al: Align { i: 1, len: 0, interval: case.save_interval }, dt, k: 0, done: 0, ci: 0, ii: 0, arrived: false, terminated: false, budget: 60_000, rest_outside: 0, stuck: false, final_walk: false, handed_over: false, tspec: None }
     }
     fn align(&self, ctx: &mut Ctx, after: &str) {
         let s = &self.sim;
@@ -1608,6 +1658,11 @@ impl Runner {
         let kk = k.min(lroute.len() - self.done);
         self.sim.extend_path(links, &lroute[self.done..self.done + kk])?;
         self.done += kk;
+        if let Some(t) = &self.tspec {
+            let rd: Vec<usize> = lroute[..self.done].iter().map(|l| l.idx()).collect();
+            crate::trk::check_speeds(ctx, &self.sim.path_tpc, links, &rd, t, "extend_path of a train simulation", false);
+            ctx.hit("stat.train_path_profiles_checked");
+        }
         if std::env::var("ALTSIM_TRACE_STEPS").is_ok() {
             if let Ok(v) = serde_json::to_value(&self.sim.braking_points) {
                 eprintln!("speed points: {:?}", self.sim.path_tpc.speed_points().iter().map(|p| (p.offset.value, p.speed_limit.value)).collect::<Vec<_>>());
